@@ -6,6 +6,9 @@
 // Environment (this file + c19_models.c): QXmppClient::sendPacket = wire log (real toXml into the writer tree model), the jobs'
 // and the manager's signals (moc output in the real build) = ghost log, QIODevice = byte sink / symbolic source,
 // QCryptographicHash object = recording oracle, QMetaObject::invokeMethod(queued) = ghost counter.
+// Entry points: (1) h_data_step[_kf]  (2) h_close_step, h_terminated  (3) h_open_step  (4) h_sender_step, h_sender_dispatch
+// (single inductive steps from an arbitrary job pre-state)  (5) h_lookup (two jobs)  (6) h_transfer2 / (7) h_send2 (two-block
+// histories from the state the real constructors leave).  SOCKS5 bytestreams are outside (see spec.py).
 #include <QString>
 #include <QByteArray>
 #include <QMap>
